@@ -20,7 +20,7 @@
  *   S rate FAST|NORMAL|SLOW|OFF|OFF2       S rate RL -> ok pe=.. pr=..
  *   S plan RC [rsend:SEQ:LEN|evsend:SEQ:LEN|rate:RL]...   (behaviour of the next msg_process call)
  *   S sndbuf N ; C sndbuf N                shrink SO_SNDBUF of the notification/datagram sockets
- *   fault ns K [N] | fault park K | fault dsc K [N] | fault dss K [N]
+ *   fault ns K [N] | fault park K | fault spin N | fault dsc K [N] | fault dss K [N]
  *   quiesce                                S run until idle
  *   free NREQ NEVT SEED                    free-running burst (both threads run concurrently; oracle only)
  *   end                                    end residue=N
@@ -104,6 +104,10 @@ static int nr_in_disp;
 /* faults */
 static int fault_ns_at, fault_ns_n;	/* server notification sends: the at-th from now fails N times */
 static int fault_park_at;		/* client notification byte: park before the at-th */
+static int fault_spin;			/* EAGAINs the client library is shown on its notification byte before
+					 * the harness parks the client (the library spins on EAGAIN there) */
+static int cs_spin_left;		/* ... still to be shown in the current episode */
+static int cs_park_due;			/* park at the next attempt */
 static int fault_dsc_at, fault_dsc_n, fault_dss_at, fault_dss_n;
 static int free_running;
 
@@ -192,9 +196,26 @@ ssize_t send(int fd, const void *buf, size_t len, int flags)
 		errno = e;
 		return r;
 	case R_CS:	/* request notification byte, client -> server */
+		if (cs_spin_left > 0) {
+			/* the socket is (or is declared) full: the library sees EAGAIN and tries again */
+			cs_spin_left--;
+			errno = EAGAIN;
+			return -1;
+		}
 		for (;;) {
-			if (fault_park_at > 0 && --fault_park_at == 0) {
+			if (cs_park_due) {
+				cs_park_due = 0;
 				client_park();
+				continue;
+			}
+			if (fault_park_at > 0 && --fault_park_at == 0) {
+				cs_park_due = 1;
+				if (fault_spin > 0 && infl_c2s >= 1) {
+					/* a full socket: only legal while unread bytes exist */
+					cs_spin_left = fault_spin - 1;
+					errno = EAGAIN;
+					return -1;
+				}
 				continue;
 			}
 			pthread_mutex_lock(&tr_mu);
@@ -211,7 +232,12 @@ ssize_t send(int fd, const void *buf, size_t len, int flags)
 				errno = e;
 				return r;
 			}
-			client_park();
+			cs_park_due = 1;
+			if (fault_spin > 0) {
+				cs_spin_left = fault_spin - 1;
+				errno = EAGAIN;
+				return -1;
+			}
 		}
 	case R_CREQ:
 		if (fault_dsc_at > 0 && --fault_dsc_at == 0 && fault_dsc_n > 0) {
@@ -560,6 +586,7 @@ static void client_exec(void)
 	case OP_SEND:
 		m = mk_msg(cl_op.seq, cl_op.len);
 		emit("C call send %u %zu", cl_op.seq, cl_op.len);
+		cs_spin_left = cs_park_due = 0;
 		r = qb_ipcc_send(cconn, m, cl_op.len);
 		res_str(rs, sizeof rs, r);
 		emit("C ret %s", rs);
@@ -570,6 +597,7 @@ static void client_exec(void)
 		m = mk_msg(cl_op.seq, cl_op.len);
 		k = split_iov(iov, m, cl_op.len, cl_op.k);
 		emit("C call sendv %u %zu %d", cl_op.seq, cl_op.len, k);
+		cs_spin_left = cs_park_due = 0;
 		r = qb_ipcc_sendv(cconn, iov, k);
 		res_str(rs, sizeof rs, r);
 		emit("C ret %s", rs);
@@ -870,6 +898,7 @@ static void teardown(void)
 	while (plan_head != plan_tail) { free(plans[plan_head % MAXPLAN]); plan_head++; }
 	free_running = 0;
 	fault_ns_at = fault_park_at = fault_dsc_at = fault_dss_at = 0;
+	fault_spin = cs_spin_left = cs_park_due = 0;
 	infl_c2s = infl_s2c = 0;
 	sobs[0] = 0;
 }
@@ -1011,6 +1040,7 @@ int main(void)
 			int at = atoi(t[2]), n = nt > 3 ? atoi(t[3]) : 1;
 			if (!strcmp(t[1], "ns")) { fault_ns_at = at; fault_ns_n = n; }
 			else if (!strcmp(t[1], "park")) fault_park_at = at;
+			else if (!strcmp(t[1], "spin")) fault_spin = at;
 			else if (!strcmp(t[1], "dsc")) { fault_dsc_at = at; fault_dsc_n = n; }
 			else if (!strcmp(t[1], "dss")) { fault_dss_at = at; fault_dss_n = n; }
 		} else if (!strcmp(t[0], "free") && nt >= 4) {
